@@ -732,6 +732,14 @@ pub fn run_session<C: Autocomplete + Help>(
                         }
                     }
                     let alts = ref_tokenize_set(&pre_line);
+                    for toks in &alts {
+                        if !toks.is_empty() {
+                            let (h, o) = help_shape(&toks[0], &ref_classify(&toks[1..]));
+                            if h || o {
+                                res.touched |= 4;
+                            }
+                        }
+                    }
                     if on(P_C01) {
                         rep.eval();
                         rep.seen(hash_u64s(&[1, size_class(cfg.cmd), token_shape(&pre_line), (pre.line.len() == cfg.cmd) as u64]));
@@ -775,8 +783,6 @@ pub fn run_session<C: Autocomplete + Help>(
                             rep.count("c01.enter.suppressed");
                             if alts[0].is_empty() {
                                 rep.count("c01.enter.empty_line");
-                            } else {
-                                res.touched |= 4;
                             }
                         } else {
                             rep.count("c01.enter.dispatched");
